@@ -472,7 +472,8 @@ impl BinaryClassification<&[bool]> for &[Pr] {
         let mut s0 = f32::NEG_INFINITY;
 
         for (s, t) in tuples {
-            if (*s - s0).abs() > 1e-10 {
+            // one threshold per distinct score: only equal scores are ties
+            if *s != s0 {
                 tps_fps.push((tp, fp));
                 thresholds.push(s);
                 s0 = *s;
